@@ -87,7 +87,67 @@ def _callee_of(t):
     return c.get("resolved") or c.get("path")
 
 
-def inline_crate(facts, baseline_paths):
+
+# Option / Result combinators taking a closure, rewritten into the `match` they stand for (the closure body is spliced in):
+#   name -> (variant whose payload goes to the closure, what the other variant yields, wrap the closure's result?)
+COMBINATORS = {
+    ("Option", "map_or"): ("Some", "default", None),
+    ("Option", "is_some_and"): ("Some", False, None),
+    ("Option", "is_none_or"): ("Some", True, None),
+    ("Option", "map"): ("Some", "None", "Some"),
+    ("Option", "and_then"): ("Some", "None", None),
+    ("Result", "map_or"): ("Ok", "default", None),
+    ("Result", "is_ok_and"): ("Ok", False, None),
+}
+DISCR = {"Some": 1, "None": 0, "Ok": 0, "Err": 1}
+
+
+def _combinator_of(t):
+    f = t.get("func") or {}
+    c = f.get("const") if isinstance(f, dict) else None
+    if not c or c.get("k") != "fn":
+        return None
+    p = c.get("resolved") or c.get("path") or ""
+    name = p.split("::")[-1]
+    for fam in ("Option", "Result"):
+        if ("::%s::<" % fam) in p and (fam, name) in COMBINATORS:
+            return fam, name
+    return None
+
+
+def combinator_sites(body):
+    """[(block index, family, name)] of the combinator calls of one body"""
+    out = []
+    for i, blk in enumerate(body["blocks"]):
+        t = blk["term"]
+        if t["k"] == "call" and t.get("target") is not None:
+            c = _combinator_of(t)
+            if c:
+                out.append((i, c[0], c[1]))
+    return out
+
+
+def _closure_path_of(js, blocks, op):
+    """path of the closure an operand holds: a constant closure, or a local assigned a closure aggregate exactly once"""
+    if "const" in op:
+        c = op["const"]
+        return c.get("path") if c.get("k") == "closure" else None
+    pl = op.get("move") or op.get("copy")
+    if not pl or pl.get("p"):
+        return None
+    found = []
+    for blk in blocks:
+        for st in blk["stmts"]:
+            if st["k"] == "assign" and st["place"]["l"] == pl["l"] and not st["place"].get("p"):
+                rv = st["rv"]
+                found.append(rv.get("path") if rv.get("k") == "agg" and rv.get("agg") == "closure" else None)
+        t = blk["term"]
+        if t["k"] == "call" and t["dest"]["l"] == pl["l"]:
+            found.append(None)
+    return found[0] if len(found) == 1 else None
+
+
+def inline_crate(facts, baseline_paths, baseline_comb=None):
     """facts: one crate's facts dict (mutated: 'bodies' replaced).  Returns the list of helper paths that were spliced."""
     if baseline_paths is None:
         return []
@@ -95,9 +155,22 @@ def inline_crate(facts, baseline_paths):
     by_path = {b["path"]: b for b in facts["bodies"]}
     new = {p for p, b in by_path.items() if b["kind"] == "fn" and p not in base and "::tests::" not in p and p != "main"
            and len(b["blocks"]) <= MAX_BLOCKS}
-    if not new:
+    # combinator calls the confirmed tree did not have (per body and combinator: more calls than the baseline counted)
+    excess = set()
+    if baseline_comb is not None:
+        for p_, b in by_path.items():
+            if b["kind"] not in ("fn", "closure") or "::tests::" in p_:
+                continue
+            cnt = {}
+            for i, fam, name in combinator_sites(b):
+                cnt[(fam, name)] = cnt.get((fam, name), 0) + 1
+            for (fam, name), n in cnt.items():
+                if n > baseline_comb.get("%s|%s|%s" % (p_, fam, name), 0):
+                    excess.add((p_, fam, name))
+    if not new and not excess:
         return []
     memo, stack = {}, []
+    eaten = set()           # closures whose body was spliced into the match that replaced their combinator
 
     def inlined(path):
         if path in memo:
@@ -123,6 +196,67 @@ def inline_crate(facts, baseline_paths):
         while i < n0:
             blk = blocks[i]
             t = blk["term"]
+            comb = _combinator_of(t) if t["k"] == "call" and t.get("target") is not None else None
+            if comb and (js["path"], comb[0], comb[1]) in excess:
+                variant, other, wrap = COMBINATORS[comb]
+                cpth = _closure_path_of(js, blocks, t["args"][-1])
+                cal = inlined(cpth) if cpth in by_path and cpth not in stack else None
+                a0 = t["args"][0]
+                pl0 = a0.get("move") or a0.get("copy")
+                if cal is not None and cal["arg_count"] == 2 and pl0 is not None and \
+                        len(blocks) + len(cal["blocks"]) < MAX_TOTAL:
+                    sp = t.get("span")
+                    l_opt, l_d = len(locals_), len(locals_) + 1
+                    locals_.append({"ty": pl0.get("ty", "?"), "mut": False})
+                    locals_.append({"ty": "isize", "mut": False})
+                    coff = len(locals_)
+                    locals_.extend(cal["locals"])
+                    for d in cal["debug"]:
+                        if d["place"]["l"] in (1, 2):
+                            continue            # the closure itself (captures) and its parameter stay anonymous
+                        nd = dict(d)
+                        nd["place"] = _shift_place(d["place"], coff)
+                        debug.append(nd)
+                    off_b = len(blocks)
+                    b_some, entry = off_b, off_b + 1
+                    land = entry + len(cal["blocks"])
+                    b_none = land + 1
+                    variants = [[0, "None"], [1, "Some"]] if comb[0] == "Option" else [[0, "Ok"], [1, "Err"]]
+                    pay_ty = cal["locals"][2]["ty"]
+                    opt_pl = {"l": l_opt, "p": [], "ty": pl0.get("ty", "?")}
+                    d_pl = {"l": l_d, "p": [], "ty": "isize"}
+                    blocks[i] = {"stmts": list(blk["stmts"]) + [
+                        {"k": "assign", "place": opt_pl, "rv": {"k": "use", "op": a0}, "span": sp},
+                        {"k": "assign", "place": d_pl, "rv": {"k": "discr", "place": opt_pl, "variants": variants}, "span": sp}],
+                        "cleanup": blk.get("cleanup", False),
+                        "term": {"k": "switch", "op": {"copy": d_pl}, "ty": "isize", "targets": [[DISCR[variant], b_some]],
+                                 "otherwise": b_none, "span": sp}}
+                    payload = {"l": l_opt, "p": [{"downcast": variant}, {"f": 0, "name": "0", "bty": pay_ty}], "ty": pay_ty}
+                    blocks.append({"stmts": [
+                        {"k": "assign", "place": {"l": coff + 1, "p": [], "ty": cal["locals"][1]["ty"]},
+                         "rv": {"k": "use", "op": t["args"][-1]}, "span": sp},
+                        {"k": "assign", "place": {"l": coff + 2, "p": [], "ty": pay_ty},
+                         "rv": {"k": "use", "op": {"move": payload}}, "span": sp}],
+                        "cleanup": False, "term": {"k": "goto", "target": entry, "span": sp}})
+                    for cb in cal["blocks"]:
+                        blocks.append(_shift_block(cb, coff, entry, land))
+                    ret = {"move": {"l": coff, "p": [], "ty": cal["locals"][0]["ty"]}}
+                    rv_some = {"k": "use", "op": ret} if wrap is None else \
+                        {"k": "agg", "agg": "adt", "adt": "std::option::Option", "variant": "Some", "fields": ["0"], "ops": [ret]}
+                    blocks.append({"stmts": [{"k": "assign", "place": t["dest"], "rv": rv_some, "span": sp}], "cleanup": False,
+                                   "term": {"k": "goto", "target": t["target"], "span": sp}})
+                    if other == "default":
+                        rv_none = {"k": "use", "op": t["args"][1]}
+                    elif other == "None":
+                        rv_none = {"k": "agg", "agg": "adt", "adt": "std::option::Option", "variant": "None", "fields": [], "ops": []}
+                    else:
+                        rv_none = {"k": "use", "op": {"const": {"k": "val", "ty": "bool", "v": other}}}
+                    blocks.append({"stmts": [{"k": "assign", "place": t["dest"], "rv": rv_none, "span": sp}], "cleanup": False,
+                                   "term": {"k": "goto", "target": t["target"], "span": sp}})
+                    eaten.add(cpth)
+                    changed = True
+                    i += 1
+                    continue
             if t["k"] == "call" and t.get("target") is not None:
                 cp = _callee_of(t)
                 if cp in new and cp != js["path"]:
@@ -170,6 +304,8 @@ def inline_crate(facts, baseline_paths):
     # new helpers: their own bodies get their nested helpers spliced too; drop the ones spliced everywhere
     final = []
     for b in result:
+        if b["path"] in eaten:
+            continue
         if b["path"] in new:
             b2 = inlined(b["path"])
             if b["path"] in used and b["path"] not in left and not _referenced_otherwise(result, b["path"]):
@@ -178,7 +314,7 @@ def inline_crate(facts, baseline_paths):
         else:
             final.append(b)
     facts["bodies"] = final
-    return sorted(used)
+    return sorted(used | eaten)
 
 
 def _referenced_otherwise(bodies, path):
